@@ -84,7 +84,9 @@ class FinalFeedback:
         self.considered.append(feedback)
         # Check if we should suppress this feedback based on its
         # category and label (and also potentially fields)
-        category = feedback.category.lower()
+        category = Feedback.CATEGORIES.UNKNOWN
+        if feedback.category is not None:
+            category = feedback.category.lower()
         if category in self.suppressions:
             if True in self.suppressions[category]:
                 return
